@@ -2,6 +2,7 @@
 import gen_hops as H
 import hops_oracles as O
 from props import risklib as R, riskgen as RG
+from props import c13 as K13
 ID = "C04"
 MANIFEST = {
     "text": ("Kernel-checked theorems over the handler model (h_borrow, h_withdraw) and the risk-engine model: a successful borrow "
@@ -58,12 +59,22 @@ def suites(rng, tier):
     a = [RG.gen_gate_case(rng, dist, big_portfolio=(i % 10 == 0)) for i in range(n)]
     b = [RG.pythify(rng, H.gen_case(rng)) for _ in range(m)]
     c = [H.gen_case(rng) for _ in range(k)]
-    return [{"suite": "risk", "name": "risk-gate-boundary", "lines": a, "distribution": dict(dist, cases=n)},
+    ne = {"quick": 600, "thorough": 6000, "search": 2500}[tier]
+    e = []
+    while len(e) < ne:
+        l = K13.gen_seq(rng, tier)
+        if " EM " in f" {l} " or " CL " in f" {l} ":
+            e.append(l)
+    return [{"suite": "cfgsim", "name": "emode-entries-feeding-the-risk-engine", "lines": e,
+             "distribution": {"cases": ne, "note": "the health the gate checks takes its e-mode weights from the entries stored by configure_bank_emode / clone_emode (intersection over the debt banks, counted per tag): histories of the real instructions with entry tables containing holes, repeated tags and unsorted tags; a stored table with a repeated tag makes the per-tag count wrong"}},
+            {"suite": "risk", "name": "risk-gate-boundary", "lines": a, "distribution": dict(dist, cases=n)},
             {"suite": "risk", "name": "risk-malformed-streams", "lines": b, "distribution": {"cases": m}},
             {"suite": "hops", "name": "hops-handlers", "lines": c, "distribution": {"cases": k}}]
 
 
 def nontrivial(suite, case, impl):
+    if suite == "cfgsim":
+        return K13.nontrivial(suite, case, impl)
     if suite == "risk":
         return R.gate_nontrivial(R.Trace(case, impl))
     tr = O.Trace(case, impl)
@@ -74,6 +85,11 @@ def nontrivial(suite, case, impl):
 
 
 def oracle(suite, case, impl):
+    if suite == "cfgsim":
+        v = K13.oracle(suite, case, impl)
+        if v and "emode" in v["key"]:
+            return {"key": "emode-entries-ambiguous-for-risk-engine:" + v["key"], "what": v["what"]}
+        return None
     if suite == "risk":
         return R.oracle_gate(R.Trace(case, impl))
     # hops: the shared oracle, then the stricter one of this module (converse direction, unusable prices)
